@@ -3,12 +3,11 @@
 (* TRACE_FILE holds [obs |-> << ... >>]; an observation is one of                                         *)
 (*   [kind |-> "parse", t, x, ok, v]        one parse of one key of type t with input x through           *)
 (*        parse_object({key: x}) or parse_args(["--key=" + text]): accepted?, and the resulting value;    *)
-(*   [kind |-> "fix", t, first, vok, sok, second, draised, rok, dsame, ser, ser2, jdraised, jrok, ...]     *)
-(*        what happened to an accepted result `first`: parser.validate passed (vok), parse_object of the  *)
-(*        result succeeded (sok) and returned `second`, dump raised (draised), the dump re-parsed (rok)    *)
-(*        and the second dump was                                                                          *)
-(*        byte-identical (dsame), the same for format="json" (jrok, jdsame); ser / ser2 (jser / jser2) are  *)
-(*        the first and the second dump as read back by the stock YAML (JSON) loader.                       *)
+(*   [kind |-> "fix", t, first, vok, sok, second, draised, rok, dsame, ser, ser2, jdraised, jrok, jdsame,  *)
+(*    jser, jser2]   what happened to an accepted result `first`: parser.validate passed (vok);            *)
+(*        parse_object of the result succeeded (sok) and returned `second`; dump raised (draised), the    *)
+(*        dump re-parsed (rok) and the second dump was byte-identical (dsame); ser / ser2 are the first   *)
+(*        and the second dump read back by the stock YAML loader; j...: the same for format="json".       *)
 (* Sets arrive as arrays and dicts as arrays of pairs; V / T rebuild the spec's values and type terms.     *)
 (* Each observation is checked on its own; a failing clause is printed as <<"R", kind, index, clause>>:    *)
 (*   ref...   the real code disagrees with the Ref layer (verdict); the suffix says whether it behaves     *)
